@@ -36,7 +36,7 @@ def generate(rng, tier):
         preds += [('direction_close', [g, rf2, ['#', 6]]), ('mag_bits_equal', [g, rf2])]
         on = P.add('GNewAngle', P.f(2.0), P.add('GAngle', ax))
         preds.append(('direction_close', [on, P.add('GReflect', on, ax), ['#', 3]]))
-        f = r.choice([0.0, -0.0, 1.0, -1.0, 5e-324, -1e-300, 1e100, -1e100, 2.0, -2.5]) if r.chance(0.6) else r.uniform(-4, 4)
+        f = r.choice([0.0, -0.0, 1.0, -1.0, 5e-324, -5e-324, -1e-310, -1e-300, 1e-300, 1e100, -1e100, 2.0, -2.5]) if r.chance(0.6) else r.uniform(-4, 4)
         sr = P.add('GScaleRotate', g, P.f(f), rot)
         ref = P.add('AAdd', 0, P.add('ANeg', ga), rot) if f < 0 else P.add('AAdd', 0, ga, rot)
         preds.append(('scale_rotate_enc', [g, ['#', fb.bits(f)], rot, sr, ref]))
@@ -50,5 +50,5 @@ def generate(rng, tier):
 
 LEVEL_TEXT = ('Kernel-checked theorems about the model: rotation keeps the magnitude bit-exact and adds the rotation angle (total within 1e-10 + 2^-51, canonical); a full turn adds exactly four blades with the remainder untouched; '
               'reflection keeps the magnitude bit-exact, returns a canonical angle with at least twice the axis\'s blades, and does not depend on the axis length; scale_rotate multiplies by |f| and negates the angle first exactly when f <_F 0. '
-              'The reflection law 2 alpha - t (mod 2pi) is decided by predicate (S3, partial).')
+              'C12_reflect_law: the reflected total equals 2*theta(axis) + 8q - theta(base p) within 3e-10 + 7 ulp(4), i.e. the direction 2 alpha - t modulo a full turn. Double reflection as one statement is decided by predicate (S3).')
 LEVEL_NOTE = ('Partial. Trusted: Coq kernel + vm_compute; 4 standard-library axioms; hand-written model validated bit-for-bit each run. No libm involved in rotate/reflect/scale_rotate.')
